@@ -192,7 +192,7 @@ def k1(prog, ctx):
         owner_constant_check(prog, ctx, {"gene_db_list"}, "gene_regions", "self.gene_regions")
 
 
-def k2(prog, ctx):
+def k2(prog, ctx, tag="K2"):
     sites = []
     for rel in sorted(prog.modules):
         for node in ast.walk(prog.modules[rel].tree):
@@ -203,6 +203,40 @@ def k2(prog, ctx):
     for c in sites:
         f = enclosing_function(c)
         by_func.setdefault(f, []).append(c)
+    from ..engine.argswap import bind_args
+
+    def upper_in(x):
+        return any(isinstance(n, ast.Call) and isinstance(n.func, ast.Attribute) and n.func.attr == "upper" for n in ast.walk(x))
+
+    def helper_normalises(call):
+        """the operands come from a helper of the project: does THIS call get upper-cased dinucleotides back?"""
+        cands = [g for _m, gq, g in prog.all_functions() if gq.split(".")[-1] == (call_name(call) or "").split(".")[-1]]
+        if len(cands) != 1:
+            return None
+        h = cands[0]
+        bound = bind_args(call, h)
+        params = [a.arg for a in h.args.args]
+        defaults = dict(zip(params[len(params) - len(h.args.defaults):], h.args.defaults))
+        verdict = None
+        for pth in flow.paths(h):
+            if pth.exit != "return" or pth.exit_node is None or pth.exit_node.value is None:
+                continue
+            feasible = True
+            for t, pol in pth.conds():
+                if isinstance(t, ast.Name) and t.id in params:
+                    v = bound.get(t.id, defaults.get(t.id))
+                    if isinstance(v, ast.Constant) and bool(v.value) != pol:
+                        feasible = False
+                    elif not isinstance(v, ast.Constant):
+                        return None
+            if not feasible:
+                continue
+            hdefs = local_defs(h)
+            rv = pth.exit_node.value
+            elts_ = rv.elts if isinstance(rv, ast.Tuple) else [rv]
+            ok_ = all(upper_in(e_) or (isinstance(e_, ast.Name) and e_.id in hdefs and all(upper_in(v_) for _k, v_, _s in hdefs[e_.id])) for e_ in elts_)
+            verdict = ok_ if verdict is None else (verdict and ok_)
+        return verdict
     verdicts = {}
     for f, cs in by_func.items():
         defs = local_defs(f)
@@ -214,8 +248,10 @@ def k2(prog, ctx):
                 if isinstance(e, ast.Name) and e.id in defs:
                     exprs = [v for _k, v, _s in defs[e.id]]
                 for x in exprs:
-                    if not any(isinstance(n, ast.Call) and isinstance(n.func, ast.Attribute) and n.func.attr == "upper"
-                               for n in ast.walk(x)):
+                    if upper_in(x):
+                        continue
+                    hv = helper_normalises(x) if isinstance(x, ast.Call) and prog.try_func(f._module.rel, (call_name(x) or "").split(".")[-1]) is not None else None
+                    if hv is not True:
                         normalised = False
         verdicts[f] = normalised
     # is the function used by the pipeline?
@@ -233,23 +269,25 @@ def k2(prog, ctx):
         return False
     ref = [f for f, v in verdicts.items() if v]
     if not ref:
-        raise AnalysisError("no splice-site comparison upper-cases its operands: reference implementation get_intron_strand changed")
+        ctx.undecided(tag, sites[0] if sites else prog.module("src/common.py").tree, "splice-site comparisons",
+                      "no splice-site comparison upper-cases its operands: the reference implementation get_intron_strand changed")
+        return
     n = 0
     for f, v in sorted(verdicts.items(), key=lambda kv: kv[0].lineno):
         rel = f._module.rel
         if v:
-            ctx.ok("K2", "%s:%d" % (rel, f.lineno), "%s upper-cases the dinucleotides before comparing with CANONICAL_*_SITES" % f._qualname)
+            ctx.ok(tag, "%s:%d" % (rel, f.lineno), "%s upper-cases the dinucleotides before comparing with CANONICAL_*_SITES" % f._qualname)
             n += 1
         elif used(f):
-            ctx.fail("K2", by_func[f][0], f._qualname, src(by_func[f][0]),
+            ctx.fail(tag, by_func[f][0], f._qualname, src(by_func[f][0]),
                      "%s compares reference dinucleotides with CANONICAL_*_SITES without upper-casing, while %s upper-cases "
                      "them: a soft-masked (lower-case) gt..ag intron is canonical for one and not for the other"
                      % (f._qualname, ref[0]._qualname))
             n += 1
         else:
-            ctx.note("K2: %s:%s does not normalise case but is not called from the pipeline closure (reported, not armed)"
+            ctx.note(tag + ": %s:%s does not normalise case but is not called from the pipeline closure (reported, not armed)"
                      % (rel, f._qualname))
-    ctx.floor("K2", "armed splice-site comparison functions", n, 2)
+    ctx.floor(tag, "armed splice-site comparison functions", n, 2)
 
 
 def k3(prog, ctx, tag="K3"):
